@@ -14,7 +14,7 @@ import (
 
 func init() {
 	register(&Rule{ID: "SPEC-put-delete", Props: []string{"C07"}, Min: 6,
-		Doc: "S (abstract evaluation over a finite domain): fromPropertyDescriptor is evaluated on every reachable representation (the descriptor object has exactly value / writable or get / set, plus enumerable and configurable, with the stored values: 8.10.4); objectPut and objectDelete are evaluated - through the ordinary object's class table, with the property tables of the object and of its prototype as the only state - on every combination of: the own property in each representation reachable by Object.defineProperty (SPEC-define-own), the prototype missing / without the property / holding it in each reachable representation, the object extensible or not, and throw true or false. The outcome (TypeError, the setter that was called and with which receiver, the own property afterwards, the prototype's property untouched) equals ES5 8.12.4-5 and 8.12.7: a non-writable value never changes, an inherited accessor governs the assignment, an inherited read-only data property or a non-extensible object blocks the creation of an own property, a non-configurable property is not deleted",
+		Doc: "S (abstract evaluation over a finite domain): objectGet is evaluated on own x prototype representations (the value of a data property, or the getter called with the receiver - not the holder - as this: 8.12.3); fromPropertyDescriptor is evaluated on every reachable representation (the descriptor object has exactly value / writable or get / set, plus enumerable and configurable, with the stored values: 8.10.4); objectPut and objectDelete are evaluated - through the ordinary object's class table, with the property tables of the object and of its prototype as the only state - on every combination of: the own property in each representation reachable by Object.defineProperty (SPEC-define-own), the prototype missing / without the property / holding it in each reachable representation, the object extensible or not, and throw true or false. The outcome (TypeError, the setter that was called and with which receiver, the own property afterwards, the prototype's property untouched) equals ES5 8.12.4-5 and 8.12.7: a non-writable value never changes, an inherited accessor governs the assignment, an inherited read-only data property or a non-extensible object blocks the creation of an own property, a non-configurable property is not deleted",
 		Run: ruleSpecPutDelete})
 }
 
@@ -278,6 +278,77 @@ func ruleSpecPutDelete(c *Ctx, r *R) {
 			}
 		}
 	}
+	// ---- [[Get]] (8.12.3): the value of a data property, or the getter called with the *receiver* as this ----
+	var fGet *ssa.Function
+	for _, fn := range c.AllSrcFuncs("") {
+		if ssaFuncName(fn) == "objectGet" {
+			fGet = fn
+		}
+	}
+	if fGet == nil {
+		r.undecided("unresolved:objectGet", "-", "UNRESOLVED: objectGet")
+	} else {
+		for _, k := range keys {
+			own := w.states[k]
+			ownSt, why := w.decode(own)
+			if why != "" {
+				continue
+			}
+			for _, pc := range protos {
+				var protoSt pdState
+				if !pc.none {
+					var why string
+					if protoSt, why = w.decode(pc.sp); why != "" {
+						continue
+					}
+				}
+				eff := ownSt
+				where := "own"
+				if ownSt.kind == "absent" {
+					eff = pdState{kind: "absent"}
+					if !pc.none {
+						eff = protoSt
+					}
+					where = "inherited"
+				}
+				st := get("8.12.3 get " + where + " " + eff.kind)
+				st.cases++
+				var proto aval = aNil{}
+				if !pc.none {
+					proto = aRef{root: mkObject("proto", pc.sp, true, aNil{})}
+				}
+				cell := mkObject("obj", own, true, proto)
+				setterCalls = nil
+				ret, pan, fail := absRun(in, fGet, []aval{aRef{root: cell}, aStr("x")})
+				desc := fmt.Sprintf("own %s, prototype %s: o.x", ownSt, map[bool]string{true: "none", false: protoSt.String()}[pc.none])
+				if fail != "" {
+					if st.fail == "" {
+						st.fail = fail + " [" + desc + "]"
+					}
+					continue
+				}
+				if pan != nil {
+					st.bad = append(st.bad, desc+" panics ("+describeAval(pan)+")")
+					continue
+				}
+				wantVal, wantCall := "undefined", ""
+				switch eff.kind {
+				case "data":
+					wantVal = eff.v
+				case "accessor":
+					if eff.g != "undefined" {
+						wantCall = eff.g + ".call(obj:obj, ?)"
+						wantVal = "undefined" // what the modelled call returns
+					}
+				}
+				gotCall := strings.Join(setterCalls, "; ")
+				gotVal := m.valueAtom(ret)
+				if gotVal != wantVal || gotCall != wantCall {
+					st.bad = append(st.bad, fmt.Sprintf("%s -> value %s, calls [%s]; ES5 8.12.3 requires value %s, calls [%s] (a getter runs with the receiver as this, also when it is inherited)", desc, gotVal, gotCall, wantVal, wantCall))
+				}
+			}
+		}
+	}
 	// ---- FromPropertyDescriptor (8.10.4): what Object.getOwnPropertyDescriptor reports for each representation ----
 	var fFrom *ssa.Function
 	for _, fn := range c.AllSrcFuncs("") {
@@ -365,6 +436,9 @@ func ruleSpecPutDelete(c *Ctx, r *R) {
 		}
 		if strings.HasPrefix(cat, "8.10.4") && fFrom != nil {
 			site = c.Pos(fFrom.Pos())
+		}
+		if strings.HasPrefix(cat, "8.12.3") && fGet != nil {
+			site = c.Pos(fGet.Pos())
 		}
 		switch {
 		case st.fail != "":
